@@ -206,6 +206,21 @@ def run_one(cfg, chooser):
         obs.append((kind, pp, round(w2, 4)))
     if cfg["shuffle_mode"] == "random" and len(set(partners)) != len(partners):
         return "partners_not_a_permutation", repr(partners)
+    if not any(chooser.choices):
+        # the batch handed out must stay what it is when the collator serves the next batch of the same shape (the caller
+        # may still hold it: list(loader), gradient accumulation, prefetching)
+        import numpy as np
+        keep = [t.clone() for t in out if torch.is_tensor(t)]
+        keep_ctx = {k: v.clone() for k, v in (ctx or {}).items() if torch.is_tensor(v)}
+        col.set_rng(np.random.default_rng(11))
+        try:
+            col(make_batch(cfg))
+        except Exception as e:
+            return f"second_batch_exception:{type(e).__name__}", repr(e)
+        now = [t for t in out if torch.is_tensor(t)]
+        if any(not torch.equal(a, b) for a, b in zip(keep, now)) or \
+                any(not torch.equal(v, ctx[k]) for k, v in keep_ctx.items()):
+            return "returned_batch_changed_by_next_call", "a tensor of the returned batch / ctx was overwritten by the next collate call"
     return None, tuple(obs)
 
 
